@@ -4,6 +4,8 @@ rows: [[sid, worktree-prop, sub, breaks-prop, slug, change, needs, detection-sta
 import json, os, shutil, sys
 tag, wtp_prefix, conf_prefix, rows_file = sys.argv[1:5]
 ROOT = os.path.dirname(os.path.dirname(os.path.abspath(__file__)))
+rows = json.load(open(rows_file))
+assert all(len(r) == 9 for r in rows), "every row needs 9 fields"
 for sid, wtp, sub, prop, slug, change, needs, status, strength in json.load(open(rows_file)):
     name = "%s-%s-%s" % (sid, prop, slug)
     d = os.path.join(ROOT, "seeded", name); os.makedirs(d, exist_ok=True)
